@@ -20,12 +20,15 @@ LEVEL_TEXT = ("Bounded relational (2-safety) contract on the real to_hashable / 
               "from the statement); keys of the natively handled types are identical in two interpreters with "
               "different hash seeds; memoize returns a stored result only for equal arguments. to_hashable dispatches "
               "on the CPython object protocol (hash(), isinstance against ABCs, sorted with user __lt__, numpy/pandas, "
-              "cloudpickle+md5), none of which has a semantics in the proof rung: no deductive part ('exploration').")
+              "cloudpickle+md5), none of which has a semantics in the proof rung. Proved part (pyvc): only the "
+              "structural helper _hashable_iterable (one key component per item, in order; to_hashable and _sorted "
+              "are assumed). The property is decided on the bounded rung ('exploration').")
 LEVEL_NOTE = ("Bounds: depth<=2 exhaustive over 2-3 atoms per scalar type, depth 3 sampled; look-alikes ([1,2]/(1,2), "
               "{1:2}/OrderedDict, equal data with different dtype/shape, insertion orders, deque maxlen). Stated "
               "preconditions: values do not contain the _HASH_MARKER string; ints/floats/bools that compare equal are "
               "one value (as for dict keys); no NaN. md5/cloudpickle collision-freedom is assumed.")
-TECHNIQUE = "bounded relational contract checking of the key function over value pairs (no deductive part)"
+TECHNIQUE = ("bounded relational contract checking of the key function over value pairs and memoized call histories; "
+             "helper _hashable_iterable discharged by z3")
 EXPLANATION = LEVEL_TEXT
 RULE = ("pool of generated values; all ordered pairs; distinct = distinct unordered pairs of distinct pool entries; "
         "non-trivial = at least one side is a container/array")
@@ -34,11 +37,15 @@ ASSUMPTIONS = ["values do not contain the _HASH_MARKER string", "numeric atoms t
 
 
 def registry():
-    return {}
+    from contracts import hashing
+    return {**{c.short: c for c in hashing.ALL}, **{c.name: c for c in hashing.ALL}}
 
 
 def proof_items():
-    return []
+    from contracts import hashing
+    from vf.driver import ProofItem
+    # sequences are keyed component by component, in order (what makes order and structure significant)
+    return [ProofItem(hashing.hashable_iterable, gen=hashing.hi_gen)]
 
 
 # ---- reference notion of "equal value of the same type" ----------------------------------------------------------
